@@ -29,5 +29,16 @@ for p in paras:
     else:
         out.append(p if p.endswith('\n\n') else p.rstrip('\n') + '\n\n')
     seen.update(both)
+# paragraphs that have a file but are missing from the section are inserted in id order
+for f in sorted(glob.glob('/verif/.work/design9/C*.md')):
+    pid = os.path.basename(f)[:-3]
+    if pid in seen:
+        continue
+    body = open(f).read().split('\n---')[0].strip() + '\n\n'
+    k = 1
+    while k < len(out) and (re.match(r'\*\*(C\d\d)', out[k]).group(1) < pid):
+        k += 1
+    out.insert(k, body)
+    seen.add(pid)
 open(D, 'w').write(s[:a] + ''.join(out) + s[b:])
 print('spliced', sorted(os.path.basename(f)[:-3] for f in glob.glob('/verif/.work/design9/C*.md')))
